@@ -32,5 +32,5 @@ DELIVERABLES (for change k = 1..{n}), all under {out}/:
   m<k>/patch.diff   -- `git diff` of the worktree for that change alone (apply-able with `git apply` on a clean checkout of the same commit). If you changed the generated C, also m<k>/c_patch.diff (`diff -u` of fast_likelihood.c, old vs new).
   m<k>/demo.py      -- a small self-contained program using only the public behaviour of thejoker that exits 0 on the UNCHANGED tree and exits non-zero (assertion failure with a clear message) with your change applied. It must be deterministic (fixed seeds).
   m<k>/meta.json    -- {{"property": "{pid}", "summary": "...", "files": [...], "needs_to_manifest": "what specific input/sequence/config is required", "why_tests_pass": "...", "ran": ["commands you ran and their outcome"]}}
-Between changes, restore the worktree (`git -C {wt} checkout -- .`, and rebuild/restore the .so/.c if you touched them: pristine copies are at /repo/thejoker/src/ -- you may READ/copy those two files from /repo but nothing else). Verify for each change yourself: demo fails with it, passes without it, and all 50 stable tests pass with it. Leave the worktree clean (no change applied) when done. Report briefly what you produced.
+Never use `git stash` (the stash is shared by all worktrees of this repository and other adversaries work in parallel: use `git diff > file` and `git apply file` instead). Between changes, restore the worktree (`git -C {wt} checkout -- .`, and rebuild/restore the .so/.c if you touched them: pristine copies are at /repo/thejoker/src/ -- you may READ/copy those two files from /repo but nothing else). Verify for each change yourself: demo fails with it, passes without it, and all 50 stable tests pass with it. Leave the worktree clean (no change applied) when done. Report briefly what you produced.
 """)
